@@ -97,10 +97,6 @@ def keysByBlockId : List Key → List (BlockId × Key) → Except Err (List (Blo
     | none => keysByBlockId ks (acc ++ [(k.bid, k)])
     | some other => if other = k then keysByBlockId ks acc else .error .valueError
 
-/-- names occurring in keys of rank `ndim` of the layer, first occurrence order (`block_ids` dict keys) -/
-def layerNames {V : Type} (l : Layer V) (ndim : Nat) : List String :=
-  ((l.filter (fun p => p.1.bid.length == ndim)).map (fun p => p.1.name)).eraseDups
-
 /-- `block_ids[name]` as a list -/
 def bidsOf {V : Type} (l : Layer V) (ndim : Nat) (n : String) : List BlockId :=
   (l.filter (fun p => p.1.bid.length == ndim && p.1.name == n)).map (fun p => p.1.bid)
@@ -108,12 +104,15 @@ def bidsOf {V : Type} (l : Layer V) (ndim : Nat) (n : String) : List BlockId :=
 /-- set equality of two lists of block ids (`bids == grid`) -/
 def sameSet (a b : List BlockId) : Bool := a.all (fun x => b.contains x) && b.all (fun x => a.contains x)
 
-/-- `FromGraph._inferred_layer_name`: the single name whose keys cover exactly our block grid, if any -/
+/-- `FromGraph._inferred_layer_name`: the single name whose keys cover exactly our block grid, if any.
+`names` lists the name of every key of rank `ndim` (with repetitions); "exactly one distinct candidate"
+is "the candidate occurrences are non-empty and all equal". -/
 def inferredLayerName {V : Type} (fg : FromGraph V) : Option String :=
   let ndim := fg.numblocks.length
-  match (layerNames fg.layer ndim).filter (fun n => sameSet (bidsOf fg.layer ndim n) (grid fg.numblocks)) with
-  | [n] => some n
-  | _ => none
+  let names := (fg.layer.filter (fun p => p.1.bid.length == ndim)).map (fun p => p.1.name)
+  match names.filter (fun n => sameSet (bidsOf fg.layer ndim n) (grid fg.numblocks)) with
+  | [] => none
+  | n :: rest => if rest.all (fun m => m == n) then some n else none
 
 /-- `FromGraph._find_layer_key(dsk, block_id)`: (1) the expected key from `keys` when it is in `dsk`,
 (2) our own key `(name, *block_id)` when it is in `dsk`, (3) `(inferred name, *block_id)`, else ValueError. -/
@@ -326,7 +325,6 @@ structure RuleSound (S : Sys E N D Cfg) : Prop where
   /-- the meaning is compositional: replacing children by same-meaning children keeps the meaning -/
   congr : ∀ e ks, SameDen S ks (S.children e) → S.den (S.withChildren e ks) = S.den e
   pinned : ∀ e n, S.den (S.pinned e n) = S.den e
-  pinnedOptsOut : ∀ e n, S.optsOut (S.pinned e n) = true
 
 /-- C06 for the nodes that use content-derived names (opt-out nodes carry a caller-chosen name) -/
 def NameInj (S : Sys E N D Cfg) : Prop :=
